@@ -24,7 +24,7 @@ RULE = ("law: every ordered pair of trees within the node bound; equivalence: fu
 ASSUMPTIONS = ["reference merge in this module", "documents are written with json/yaml/bson/pickle directly and with the library's XML writer"]
 
 KEYS = ["a", "b", "c"]
-LEAVES = [1, 2, None, "x", []]
+LEAVES = [1, 2, None, "x", [], True, 1.0]
 
 
 def trees(n, depth=3, leaves=None):
@@ -98,7 +98,7 @@ def ref_merge(base, child):
 
 
 def bounds(tier):
-    return {"law_max_nodes": 4 if tier == "thorough" else 3, "law_leaves": LEAVES if tier == "thorough" else [1, None, []], "equiv_formats": ["json", "yaml", "xml", "bson", "pickle"] if tier == "thorough" else ["json", "yaml"],
+    return {"law_max_nodes": 4 if tier == "thorough" else 3, "law_leaves": LEAVES if tier == "thorough" else [1, True, None], "law2_max_nodes": 2, "law2_leaves": LEAVES + [0, False, 0.0, [1], [True]], "equiv_formats": ["json", "yaml", "xml", "bson", "pickle"] if tier == "thorough" else ["json", "yaml"],
             "equiv_leaf_values": ["absent", "v1", "v2"], "equiv_variants": VARIANTS}
 
 
@@ -111,6 +111,8 @@ def jobs(tier):
     n = 32 if tier == "thorough" else 8
     for c in range(n):
         out.append({"name": "law/%02d" % c, "kind": "law", "n": b["law_max_nodes"], "leaves": b["law_leaves"], "part": c, "parts": n})
+    for c in range(4):
+        out.append({"name": "law2/%02d" % c, "kind": "law", "n": b["law2_max_nodes"], "leaves": b["law2_leaves"], "part": c, "parts": 4})
     for fmt in b["equiv_formats"]:
         for var in VARIANTS:
             for sd in ("cwd", "startdir"):
